@@ -155,4 +155,6 @@ WHO = {'gc_threshold': {'gc1', 'gc3'}, 'gc_debug': {'G', 'gcat'},
        'sys_trace': {'cov', 'D'}, 'sys_profile': {'prof'},
        'thr_trace': {'cov'}, 'thr_profile': {'prof'},
        'sys_settrace_func': {'cov'}, 'warn_filters': {'warn'},
-       'tb_format_exception': set(), 'tb_print_exception': set()}
+       'tb_format_exception': set(), 'tb_print_exception': set(),
+       'other_thread_trace': {'cov', 'D'}, 'other_thread_profile': {'prof'},
+       'monitoring_tools': {'prof', 'cov'}}
